@@ -14,6 +14,7 @@ import (
 	"path/filepath"
 	"strings"
 	"sync/atomic"
+	"testing"
 
 	"github.com/rogpeppe/go-internal/goproxytest"
 	"github.com/rogpeppe/go-internal/gotooltest"
@@ -50,6 +51,10 @@ func main() {
 }
 
 func mainerr() (retErr error) {
+	// The [short] and [net] conditions consult testing.Short, which panics
+	// in a binary that is not a test binary unless testing.Init has been
+	// called (before flag.Parse).
+	testing.Init()
 	flag.Usage = func() {
 		mainUsage(os.Stderr)
 		os.Exit(2)
